@@ -67,6 +67,7 @@ BUNDLES = {
     "B7": ["##only a directive", "# and a comment"],
     # written in another (consistent) dialect than the database: '; ' separators and a trailing semicolon
     "B8": ["c3\ts\tgene\t400\t500\t.\t+\t.\tID=g8; Name=x,y;", "c3\ts\tmRNA\t400\t500\t.\t+\t.\tID=m8; Parent=g8; Name=z;"],
+    "B9": ["c5\ts\tgene\t1\t9\t.\t+\t.\tID=g5"],            # nothing in it names a parent (second-level relations may still be due)
     # GTF family (database created and updated with inference disabled)
     "G1": ['c1\ts\texon\t100\t120\t.\t+\t.\tgene_id "G1"; transcript_id "T1";'],
     "G2": ['c1\ts\texon\t200\t220\t.\t+\t.\tgene_id "G1"; transcript_id "T2";', 'c1\ts\tCDS\t205\t210\t.\t+\t0\tgene_id "G1"; transcript_id "T2";'],
@@ -77,7 +78,7 @@ BUNDLES = {
 UPDATES = [("B1", "merge"), ("B1", "create_unique"), ("B2", "merge"),
            ("B3", "merge"), ("B3", "create_unique"), ("B3", "replace"), ("B3", "warning"),
            ("B4", "merge"), ("B4", "create_unique"), ("B4", "replace"), ("B4", "warning"),
-           ("B5", "merge"), ("B6", "merge"), ("B6", "replace"), ("B7", "merge"), ("B8", "merge")]
+           ("B5", "merge"), ("B6", "merge"), ("B6", "replace"), ("B7", "merge"), ("B8", "merge"), ("B9", "merge")]
 GTF_UPDATES = [("G1", "merge"), ("G2", "merge"), ("G3", "merge"), ("G3", "create_unique"), ("G3", "replace"), ("G3", "warning"),
                ("G4", "merge"), ("G4", "replace"), ("G5", "merge")]
 GTF_EVENTS = ["U:%s:%s" % u for u in GTF_UPDATES] + ["D:str:exon_1", "D:feat:T1", "D:list:CDS_1,exon_2"]
@@ -86,8 +87,8 @@ GFF_EVENTS = ["U:%s:%s" % u for u in UPDATES] + ["D:str:e1", "D:feat:m1", "D:lis
 EVENTS = list(INITS) + GFF_EVENTS + GTF_EVENTS + ["R", "P"]          # R = reopen, P = set_pragmas (changes nothing in the content)
 
 
-# quick leaves out five update events whose strategy/bundle combination has a close relative in the alphabet
-QUICK_SKIP = {"U:B3:warning", "U:B4:warning", "U:B1:create_unique", "U:G3:warning", "U:G3:create_unique"}
+# quick leaves out four update events whose strategy/bundle combination has a close relative in the alphabet
+QUICK_SKIP = {"U:B4:warning", "U:B1:create_unique", "U:G3:warning", "U:G3:create_unique"}
 
 
 def depth_of(tier):
